@@ -22,8 +22,11 @@ LEVEL_TEXT = ("Machine-checked (Lean 4, no sorry, axioms propext/Classical.choic
               "set, block partition, return value / throw); Props/C01Static: the heap order is the regenerated "
               "CompareConstraints (gen_compareConstraints_is_model), static_satisfy_post / static_solve_post (exit "
               "scans), static_block_inv (on every normal return from Solver(vs,cs);satisfy()/solve() the active "
-              "constraints of every block form a tight spanning tree), static_block_inv_steps (preserved by "
-              "mergeLeft, mergeRight, split from any state), static_active_tight, static_quiescent_is_optimum.")
+              "constraints of every block form a tight spanning tree, member lists and heap contents are sound), "
+              "static_block_inv_steps (preserved by mergeLeft, mergeRight, split from any state), "
+              "static_merge_applicable, static_totalOrder_topological (totalOrder/dfsVisit returns a topological "
+              "order of an acyclic constraint graph and never runs out of fuel), static_active_tight, "
+              "static_quiescent_is_optimum.")
 LEVEL_NOTE = ("Scope of 'proof': the theorems are about the hand-written Rat model of IncSolver; the C++ is tied to it "
               "by sampled correspondence (trusted base), and float rounding inside the solver is outside the model. "
               "Partial correctness: the model's loops carry fuel; theorems are about normal returns (a run that "
@@ -33,9 +36,8 @@ LEVEL_NOTE = ("Scope of 'proof': the theorems are about the hand-written Rat mod
               "(both of its real answers are proved sound; an 'unknown' is reported; none observed). Static "
               "Solver: NOT proved that satisfy() never throws on an acyclic inequality system (the VPSC paper's merge "
               "invariant through the lazily repaired heaps) - that is observed per case by correspondence + the "
-              "proven checker; one fact of the heap discipline is checked dynamically by the model instead of "
-              "proved (flag HS.corrupt: the heap of a block returns a constraint that does not end in that block) "
-              "- a run setting it is no normal return and is reported; a throw of UnsatisfiedConstraint by the "
+              "proven checker (the model has no dynamic check: that every heap hands back a constraint joining "
+              "its block to another one is a theorem, static_merge_applicable); a throw of UnsatisfiedConstraint by the "
               "static solver on a certified-feasible inequality system is a SPECFAIL (flagged-iff-infeasible); the model is tied on unscaled inequality systems only; the static solver's two genuine "
               "defects (equalities ignored - reproduced by the model, witness in Props/C01Static; scaled split) "
               "are known findings watched by the 'findings' stream.")
